@@ -998,6 +998,22 @@ int EGLPNUM_TYPENAME_ILLlib_addrows (
 
 	EGLPNUM_TYPENAME_EGlpNumInitVar (rng);
 
+	/* the norm update below subscripts imap[] with the column indices */
+	for (i = 0; i < num; i++)
+	{
+		for (j = 0; j < rmatcnt[i]; j++)
+		{
+			if (rmatind[rmatbeg[i] + j] < 0 ||
+					rmatind[rmatbeg[i] + j] >= lp->O->nstruct)
+			{
+				QSlog("EGLPNUM_TYPENAME_ILLlib_addrows called with out-of-range column index %d",
+										rmatind[rmatbeg[i] + j]);
+				rval = 1;
+				ILL_CLEANUP;
+			}
+		}
+	}
+
 	if (B == 0 || B->rownorms == 0)
 	{
 		if (factorok)
